@@ -303,6 +303,12 @@ async def _run_script(ctx, inv, ev, script):
             # late registration of a monitored handler (between events, from ordinary code)
             _, bus, pattern, name = st
             _register(ctx, bus, pattern, name, [['ret', 'late']], {})
+        elif op == 'new_bus':
+            # a bus created while the scenario is running (after other buses were used / stopped), with its handlers
+            _, name, hs = st
+            ctx.bus(name)
+            for (pattern, hname, script, *opt) in hs:
+                _register(ctx, name, pattern, hname, script, opt[0] if opt else {})
         elif op == 'idle':
             b = ctx.buses[st[1]]
             ctx.rec('AB', by=inv.id, ev='idle:' + st[1])
